@@ -8,6 +8,9 @@ import extract_loc
 RIDS = ["r1", "r2", "r3"]
 
 def mkrule(rng, key):
+    if rng.random() < 0.2:
+        # a scheduled rule: never dispatched for events, only evaluated when the cron service triggers it
+        return {"schedule": rng.choice(["* * * * *", "+1h", "!2030-01-01T00:00:00Z"]), "action": action(rng, 0)}
     r = {"when": {"pattern": {key: "?x"}}, "action": action(rng, 0)}
     if rng.random() < 0.1:
         r["expires"] = int(time.time()) + rng.choice([100000, -100])
@@ -33,6 +36,7 @@ def gen_case(rng, thorough):
         elif r < 0.65: ops.append({"op": "remFact", "loc": loc, "id": "!%s.disabled" % rid})
         elif r < 0.67: ops.append({"op": "clear", "loc": loc})
         elif r < 0.72: ops.append({"op": "listRules", "loc": "a", "inherited": True})
+        elif r < 0.80: ops.append({"op": "event", "loc": rng.choice(locs), "event": {"trigger!": rid}})      # what the cron service sends when a scheduled rule is due
         else: ops.append({"op": "event", "loc": "a", "event": {rng.choice(keys): rng.choice([1, "v"])}})
     if rng.random() < 0.3:
         # a disabled location: no rule fires and every operation reports it
